@@ -271,3 +271,12 @@ Definition spec_position_at (g : ptn) (mv : Z) (color : option bool) : res posit
             | Err => Err | Panic => Panic end
   end.
 End It.
+
+(* PTN.AddMoves: a move-number marker i/2+1 before every even-indexed move of the added list (numbering restarts at 1) *)
+Fixpoint add_moves_from (i : nat) (ms : list PtnMove.move) : list op :=
+  match ms with
+  | [] => []
+  | m :: r => (if Nat.even i then [OMoveNumber (Z.of_nat (Nat.div i 2) + 1)] else []) ++ OMove m [] :: add_moves_from (S i) r
+  end.
+Definition add_moves (g : ptn) (ms : list PtnMove.move) : ptn := {| tags := tags g; ops := ops g ++ add_moves_from 0 ms |}.
+Definition append_ops (g : ptn) (os : list op) : ptn := {| tags := tags g; ops := ops g ++ os |}.     (* p.Ops = append(p.Ops, ...) *)
